@@ -227,6 +227,22 @@ Proof.
   pose proof (wf_parent _ W _ _ _ E) as Hq. apply IH; lia.
 Qed.
 
+(** the bound used by [env_get]/[env_assign] is adequate: the walk never runs out of steps *)
+Lemma env_lookup_adequate s rho x : wf_state s -> rho < length (envs s) ->
+  env_lookup (S (length (envs s))) rho x s <> None.
+Proof. intros W Hr. apply env_lookup_total; [exact W|lia|exact Hr]. Qed.
+
+(** ... and its answer does not depend on the bound, once the bound exceeds the scope id:
+    "undefined variable" is never an artefact of the fuel *)
+Lemma env_lookup_fuel_indep s x : wf_state s ->
+  forall f1 f2 rho, rho < f1 -> rho < f2 -> env_lookup f1 rho x s = env_lookup f2 rho x s.
+Proof.
+  intros W. induction f1 as [|f1 IH]; intros [|f2] rho H1 H2; try lia. cbn [env_lookup].
+  destruct (nth_error (envs s) rho) as [[b p]|] eqn:E; [|reflexivity].
+  destruct (assoc x b); [reflexivity|]. destruct p as [q|]; [|reflexivity].
+  pose proof (wf_parent _ W _ _ _ E) as Hq. apply IH; lia.
+Qed.
+
 Lemma env_lookup_found s x : wf_state s ->
   forall fuel rho q v, env_lookup fuel rho x s = Some (Some (q, v)) ->
   q < length (envs s) /\ wf_value s v.
@@ -368,7 +384,7 @@ Proof.
   destruct (env_define act p v s) as [s1|] eqn:D; [|discriminate]. inv Hv.
   destruct (wf_env_define _ _ _ _ _ W H2 D) as (W1 & G1 & _).
   destruct (IH vs s1 s' W1 ltac:(eapply wf_vals_mono; eauto) H) as (W2 & G2).
-  split; [exact W2|eapply grows_trans; eauto].
+  split; [exact W2|exact (grows_trans _ _ _ G1 G2)].
 Qed.
 
 (** the initial store *)
@@ -597,7 +613,7 @@ Proof.
     assert (Hv : wf_vals (bump_tick s) (map (fun p => VStr (fst p)) (sort_props (sched (tick s) ps)))).
     { apply Forall_forall. intros x Hx. apply in_map_iff in Hx as (p & <- & _). exact I. }
     destruct (wf_alloc_arr _ _ _ _ W1 Hv EA) as (W2 & G2 & V2).
-    simpl. split; [exact W2|split; [eapply grows_trans; eauto|exact V2]].
+    simpl. split; [exact W2|split; [exact (grows_trans _ _ _ G1 G2)|exact V2]].
   - (* values *) destruct args as [|a [|a' r]]; try exact I; destruct a as [|b|x|t|l|l|l|n]; try exact I. inv Ha. destruct (get_obj_some _ _ H1) as [ps E]. rewrite E.
     unfold iterate_sorted. destruct (wf_bump_tick s W) as (W1 & G1).
     destruct (alloc_arr (map snd (sort_props (sched (tick s) ps))) (bump_tick s)) as [l' s'] eqn:EA.
@@ -606,7 +622,7 @@ Proof.
       unfold wf_binds in B. rewrite Forall_forall in B. apply Forall_forall. intros x Hx.
       apply in_map_iff in Hx as (p & <- & Hp). eapply wf_value_mono; [exact G1|]. apply B; exact Hp. }
     destruct (wf_alloc_arr _ _ _ _ W1 Hv EA) as (W2 & G2 & V2).
-    simpl. split; [exact W2|split; [eapply grows_trans; eauto|exact V2]].
+    simpl. split; [exact W2|split; [exact (grows_trans _ _ _ G1 G2)|exact V2]].
   - (* pow *) destruct args as [|v [|v0 [|a' r]]]; try exact I. destruct (to_number v); [|exact I]. destruct (to_number v0); [|exact I].
     apply NGood_same; [exact W|exact I].
   - (* input *)
@@ -616,15 +632,15 @@ Proof.
     + destruct a as [|b|x|s0|l0|l0|l0|n0]; try exact I.
       destruct (wf_emit (EvPrompt s0) s W) as (W1 & G1).
       destruct (inp (emit (EvPrompt s0) s)) eqn:EI; [exact I|]. destruct (read_line (n :: l)) as [line rest].
-      destruct (wf_set_inp rest _ W1) as (W' & G'). simpl. split; [exact W'|split; [eapply grows_trans; eauto|exact I]].
+      destruct (wf_set_inp rest _ W1) as (W' & G'). simpl. split; [exact W'|split; [exact (grows_trans _ _ _ G1 G')|exact I]].
 Qed.
 
 Lemma wf_native_fail_state n args s : wf_state s ->
   wf_state (native_fail_state n args s) /\ grows s (native_fail_state n args s).
 Proof.
   intros W. unfold native_fail_state.
-  destruct n; auto using grows_refl. destruct args as [|a [|b r]]; auto using grows_refl.
-  destruct a; auto using grows_refl. apply wf_emit; exact W.
+  destruct n; auto using grows_refl. destruct args as [|a [|b r]]; auto using grows_refl;
+  destruct a as [|b0|x|t|l|l|l|n]; auto using grows_refl. apply wf_emit; exact W.
 Qed.
 
 End WithOracles.
